@@ -179,6 +179,9 @@ class Poly:
             return Poly.const(self.cval() % o.cval())
         return Poly.atom(('Mod', self, o))
 
+    def __rmod__(self, o):
+        return lift(o).__mod__(self)
+
     def __pow__(self, n):
         n = n.cval() if isinstance(n, Poly) else n
         if isinstance(n, float) and n == int(n):
@@ -320,11 +323,16 @@ class Pred:
     @staticmethod
     def compare(a, b, op):
         a, b = lift(a), lift(b)
-        # integer-typed normalisation: a > b  <=>  a - b - 1 >= 0
         if op == '>=': return Pred('ge0', a - b)
-        if op == '>': return Pred('ge0', a - b - 1)
         if op == '<=': return Pred('ge0', b - a)
-        if op == '<': return Pred('ge0', b - a - 1)
+        # strict comparisons: quantities built from opaque array values (loss values, ...) are reals, the
+        # symbolic constants of the generators / schedules (indices, sizes, counters) are integers, for which
+        # a > b  <=>  a - b - 1 >= 0
+        d = (a - b) if op == '>' else (b - a)
+        if op in ('>', '<'):
+            if any(at[0] == 'S' for at in d.atoms()):
+                return Pred('gt0', d)
+            return Pred('ge0', d - 1)
         if op == '==':
             p = a - b
             # canonical sign: first monomial positive
@@ -346,7 +354,11 @@ class Pred:
         if self.kind == 'not':
             return self.arg
         if self.kind == 'ge0':      # not (p >= 0)  <=>  -p - 1 >= 0   (integers)
+            if any(at[0] == 'S' for at in self.arg.atoms()):
+                return Pred('gt0', -self.arg)
             return Pred('ge0', -self.arg - 1)
+        if self.kind == 'gt0':
+            return Pred('ge0', -self.arg)
         return Pred('not', self)
 
     def __and__(self, o):
@@ -385,6 +397,7 @@ class Pred:
 
     def __repr__(self):
         if self.kind == 'ge0': return f"[{self.arg} >= 0]"
+        if self.kind == 'gt0': return f"[{self.arg} > 0]"
         if self.kind == 'eq0': return f"[{self.arg} == 0]"
         if self.kind == 'not': return f"not{self.arg}"
         if self.kind == 'lt_real': return f"[{self.arg[0]} <R {self.arg[1]}]"
